@@ -250,6 +250,7 @@ class TypedDictValidator(_ToTupleValidator[_TDT]):
     def __eq__(self, other: Any) -> bool:
         return (
             type(self) == type(other)
+            and self.td_cls is other.td_cls
             and self.schema == other.schema
             and self.validate_object == other.validate_object
             and self.validate_object_async == other.validate_object_async
